@@ -725,6 +725,13 @@ func runC19(e *Env, r *core.Run) {
 		r.Count(kind)
 		r.AddSteps(1)
 		var res c19Res
+		// the input is handed over as a slice with spare capacity followed by guard bytes: an entry
+		// point must neither modify the caller's bytes nor write behind them
+		var gb *Guarded
+		if b != nil {
+			gb = NewGuarded(b)
+			b = gb.B()
+		}
 		pan, msg := Guard(func() { res = tg.try(c, prev, b) })
 		fail := func(class, what, format string, args ...interface{}) {
 			key := tg.name + "/" + fname
@@ -733,6 +740,12 @@ func runC19(e *Env, r *core.Run) {
 			}
 			reported[class+key] = true
 			r.Fail(class, key, "%s on %s input %x (len %d): %s", tg.name, what, b, len(b), fmt.Sprintf(format, args...))
+		}
+		if gb != nil {
+			if content, guard := gb.Intact(); !content || !guard {
+				fail("caller-memory", fname, "the caller's input buffer was modified (content intact: %v, bytes behind it intact: %v)", content, guard)
+				return
+			}
 		}
 		if pan {
 			if tg.panicsOnLength && len(b) != tg.size && !strings.HasPrefix(msg, "runtime error") {
